@@ -124,6 +124,22 @@ func genC17(t *rapid.T) CaseC17 {
 	if c.Value != nil && rapid.IntRange(0, 3).Draw(t, "nestedlists") == 0 {
 		c.Value["nl"] = []interface{}{[]interface{}{"a", "b", map[string]interface{}{"k": "v"}}, []interface{}{[]interface{}{"c"}}, "s"}
 	}
+	if c.Value != nil && rapid.IntRange(0, 5).Draw(t, "wrapdeep") == 0 {
+		// the shared Map lies 3 to 70 levels deep: every walker, printer and encoder recurses that far in every goroutine
+		var pre []Step
+		c.Value, pre = wrapDeepPrefix(t, c.Value)
+		pp := pathString(pre)
+		for gi := range c.Plans {
+			for i := range c.Plans[gi] {
+				switch o := &c.Plans[gi][i]; o.Kind {
+				case "ValuesForPath", "ValuesForPathSub", "Exists", "ExistsSub", "Elements", "Attributes", "NewMap":
+					if o.Arg != "" {
+						o.Arg = pp + "." + o.Arg
+					}
+				}
+			}
+		}
+	}
 	return c
 }
 
